@@ -207,6 +207,8 @@ def array_to_vec(a, kind='nd', mask=None, index=None):
 def from_real(x):
     if x is None or isinstance(x, (str, bool, int, bytes)):
         return x
+    if isinstance(x, slice) and all(v is None or isinstance(v, (int, np.integer)) for v in (x.start, x.stop, x.step)):
+        return slice(*(None if v is None else int(v) for v in (x.start, x.stop, x.step)))
     if isinstance(x, float):
         return x if x != x or x in (float('inf'), float('-inf')) else Fr(x)
     if x is np.ma.masked:
